@@ -3,6 +3,7 @@
 package core
 
 import (
+	"hash/crc32"
 	"context"
 	"crypto/sha256"
 	"database/sql"
@@ -385,6 +386,7 @@ type Restored struct {
 	Seq   int     `json:"seq"`
 	LockN int     `json:"lockN"`
 	Integ string  `json:"integ"`
+	Sig   string  `json:"sig"`
 }
 
 func NoRestore() Restored {
@@ -422,6 +424,34 @@ func InspectDBFile(path string, ps int, d *Dict, tmpDir string) (st DBState, app
 	return
 }
 
+
+// RowSig is a debugging aid: "id:crc32(v)" for every row of t.
+func RowSig(db *sql.DB) string {
+	rows, err := db.Query("SELECT id, v FROM t ORDER BY id")
+	if err != nil {
+		return "err:" + err.Error()
+	}
+	defer rows.Close()
+	var sb strings.Builder
+	for rows.Next() {
+		var id int
+		var v []byte
+		if err := rows.Scan(&id, &v); err != nil {
+			return sb.String() + " err:" + err.Error()
+		}
+		fmt.Fprintf(&sb, "%d:%08x ", id, crc32.ChecksumIEEE(v))
+	}
+	return sb.String()
+}
+
+func RowSigFile(path string) string {
+	db, err := sql.Open("sqlite", "file:"+path+"?mode=ro")
+	if err != nil {
+		return "err:" + err.Error()
+	}
+	defer db.Close()
+	return RowSig(db)
+}
 
 // PreState is everything litestream's verify()/sync() read, observed just before a litestream call: the physical WAL
 // slot by slot, the database file, the last local level-0 file and the in-memory flag. Trace_CoreSync.tla feeds it to
